@@ -296,6 +296,53 @@ impl Corpus for Tree {
     }
 }
 
+/// Mutually recursive triple (two members reach each other only through the third).
+#[derive(CandidType, Deserialize, Debug, Clone, PartialEq)]
+pub struct TriX {
+    pub y: Option<Box<TriY>>,
+    pub z: Option<Box<TriZ>>,
+}
+#[derive(CandidType, Deserialize, Debug, Clone, PartialEq)]
+pub struct TriY {
+    pub x: Option<Box<TriX>>,
+    pub n: u8,
+}
+#[derive(CandidType, Deserialize, Debug, Clone, PartialEq)]
+pub struct TriZ {
+    pub x: Option<Box<TriX>>,
+    pub t: String,
+}
+impl Corpus for TriX {
+    fn gen(e: &mut Ent, d: usize) -> Self {
+        TriX {
+            y: if d == 0 || e.bool() { None } else { Some(Box::new(TriY::gen(e, d - 1))) },
+            z: if d == 0 || e.bool() { None } else { Some(Box::new(TriZ::gen(e, d - 1))) },
+        }
+    }
+    fn to_rval(&self) -> RVal {
+        rec(vec![
+            ("y", RVal::Opt(self.y.as_ref().map(|x| Box::new(x.to_rval())))),
+            ("z", RVal::Opt(self.z.as_ref().map(|x| Box::new(x.to_rval())))),
+        ])
+    }
+}
+impl Corpus for TriY {
+    fn gen(e: &mut Ent, d: usize) -> Self {
+        TriY { x: if d == 0 || e.bool() { None } else { Some(Box::new(TriX::gen(e, d - 1))) }, n: u8::gen(e, 0) }
+    }
+    fn to_rval(&self) -> RVal {
+        rec(vec![("x", RVal::Opt(self.x.as_ref().map(|x| Box::new(x.to_rval())))), ("n", self.n.to_rval())])
+    }
+}
+impl Corpus for TriZ {
+    fn gen(e: &mut Ent, d: usize) -> Self {
+        TriZ { x: if d == 0 || e.bool() { None } else { Some(Box::new(TriX::gen(e, d - 1))) }, t: String::gen(e, 0) }
+    }
+    fn to_rval(&self) -> RVal {
+        rec(vec![("x", RVal::Opt(self.x.as_ref().map(|x| Box::new(x.to_rval())))), ("t", self.t.to_rval())])
+    }
+}
+
 /// Mutually recursive pair.
 #[derive(CandidType, Deserialize, Debug, Clone, PartialEq)]
 pub struct MutA {
